@@ -148,6 +148,54 @@ def run(rep, tier, seed, replay):
         else:
             rep.violation("oracle", "the glob walk %s" % what, c.describe(), impl=c.impl[:300], expected=exp[:5])
 
+    # ---- a base that is itself a link to a directory is walked (walkdir follows the ROOT of a walk whatever the link
+    # behaviour): the entries below it are those below the directory it names
+    if replay is None or replay["input"].get("what") == "link-base":
+        lb, twins2 = [], []
+        pool = walklib.gen_cases(seed + 9, 700 if tier == "quick" else 8000, stack=lambda r, v, d: ("-", "-", []), bounds="none", mode="g", link="f")
+        if replay is not None:
+            pool = [walklib.case_from(replay["input"])]
+        for c in pool:
+            links = [pth for pth, k in c.fs.nodes.items() if k[0] == "l"]
+            cands = []
+            for pth in links:
+                can = c.fs.canon(walkgen.ABS + pth)
+                if can is not None and can[:3] == walkgen.ABS and c.fs.kind(can) == ("d",) and can[3:] != pth[:len(can[3:])]:
+                    cands.append((pth, can[3:]))
+            if not cands or c.expr.startswith(("/", "@ROOT", ".")):
+                continue
+            pth, target = cands[0]
+            c.base = "/".join(pth)
+            if not walkgen.admissible(c.fs, walkgen.base_path(c.base), False):
+                continue
+            t2 = c.clone(base="/".join(target))
+            if not walkgen.admissible(c.fs, walkgen.base_path(t2.base), False):
+                continue
+            lb.append(c)
+            twins2.append(t2)
+        walklib.run_cases(lb)
+        walklib.run_cases(twins2, with_model=False)
+        walklib.correspondence_step(rep, lb, "glob walks from a link to a directory")
+        rep.evaluations += len(lb)
+        for c, t2 in zip(lb, twins2):
+            if not (c.head.startswith("root=") and t2.head.startswith("root=")):
+                continue
+            a = [(x[2], x[4]) for x in walklib.ok_items(c.f.get("items"))]
+            b = [(x[2], x[4]) for x in walklib.ok_items(t2.f.get("items"))]
+            # the walk root itself is a link in one walk and a directory in the other
+            a = [("" if r == "" else r, "d" if r == "" else k) for r, k in a]
+            b = [("" if r == "" else r, "d" if r == "" else k) for r, k in b]
+            if a == b:
+                rep.stats["link-base: same entries as the walk of the directory the link names"] += 1
+                if len(a) > 1:
+                    rep.distinct.add(c.req())
+            else:
+                missing = [x for x in b if x not in a]
+                extra = [x for x in a if x not in b]
+                d = dict(c.describe(), what="link-base")
+                rep.violation("oracle", ("the glob walk from a base that is a link to a directory loses %r, which the walk of the directory itself yields" % (missing[0][0],)) if missing else
+                              ("the glob walk from a link base yields %r, which the walk of the directory does not" % (extra[0][0],) if extra else "order differs"), d, impl=c.impl[:300])
+
     def ask(wit):
         a = walklib.case_from(wit["walk"])
         walklib.run_cases([a], with_model=False)
